@@ -437,13 +437,22 @@ func (a *arrayObject) _defineIdxProperty(idx uint32, desc PropertyDescriptor, th
 			}
 		}
 		if a.expand(idx) {
+			// keep the element counters exact: the slot may be redefined or change its kind
+			if a.values[idx] == nil {
+				a.objCount++
+			} else if _, ok := a.values[idx].(*valueProperty); ok {
+				a.propValueCount--
+			}
 			a.values[idx] = prop
-			a.objCount++
 			if _, ok := prop.(*valueProperty); ok {
 				a.propValueCount++
 			}
 		} else {
-			a.val.self.(*sparseArrayObject).add(idx, prop)
+			sa := a.val.self.(*sparseArrayObject)
+			sa.add(idx, prop)
+			if _, ok := prop.(*valueProperty); ok {
+				sa.propValueCount++
+			}
 		}
 	}
 	return ok
